@@ -13,7 +13,8 @@ HERE = os.path.dirname(os.path.dirname(os.path.abspath(__file__)))
 
 def main():
     prop, var = sys.argv[1], sys.argv[2]
-    src = "/tmp/seed-%s" % prop
+    rnd = sys.argv[3] if len(sys.argv) > 3 else ""
+    src = "/tmp/seed%s-%s" % (rnd, prop)
     patch = os.path.join(src, var + ".diff")
     demo = os.path.join(src, var + "_demo.py")
     p = subprocess.run([os.path.join(HERE, "tools", "eval_seed.py"), patch,
